@@ -24,6 +24,11 @@ Theorem skeleton_conforms :
 Proof. exact skeleton_conforms_holds. Qed.
 Print Assumptions skeleton_conforms.
 
+Theorem closable_senders_covered :
+  Skeleton.closable_senders_covered gen_funcs = true.
+Proof. exact closable_senders_covered_holds. Qed.
+Print Assumptions closable_senders_covered.
+
 Theorem close_lock_sections :
   lock_sections_ranked gen_funcs = true /\ attribution_closed gen_funcs gen_entries = true.
 Proof. exact close_lock_sections_hold. Qed.
